@@ -33,6 +33,157 @@ func derivesFromCallNamed(v ssa.Value, name string) *ssa.Call {
 	return nil
 }
 
+// c14Ctx: the call through which the function a value lives in was entered from the function a rule looks at (nil:
+// the value lives in that function itself). A parameter of the helper stands for the argument of that call.
+type c14Ctx struct {
+	call *ssa.Call
+	up   *c14Ctx
+}
+
+func (c *c14Ctx) depth() int {
+	n := 0
+	for ; c != nil; c = c.up {
+		n++
+	}
+	return n
+}
+
+// c14Site: a call made on behalf of a function, with the helper calls entered to reach it.
+type c14Site struct {
+	call *ssa.Call
+	ctx  *c14Ctx
+}
+
+// c14Enterable: the function of package pkg, with a body, that c calls statically (a helper a refactoring may have extracted).
+func c14Enterable(c *ssa.Call, pkg string) *ssa.Function {
+	g := c.Call.StaticCallee()
+	if g == nil || len(g.Blocks) == 0 || core.FuncPkgPath(g) != pkg {
+		return nil
+	}
+	return g
+}
+
+// c14CallsOnBehalf: the calls of the named function made by fn itself or, up to depth levels down, by the functions of
+// its own package that it calls statically.
+func c14CallsOnBehalf(fn *ssa.Function, depth int, match func(o *types.Func) bool) []c14Site {
+	var out []c14Site
+	pkg := core.FuncPkgPath(fn)
+	var walk func(f *ssa.Function, ctx *c14Ctx, seen map[*ssa.Function]bool)
+	walk = func(f *ssa.Function, ctx *c14Ctx, seen map[*ssa.Function]bool) {
+		for _, cs := range core.Calls(f, false) {
+			c, ok := cs.Instr.(*ssa.Call)
+			if !ok {
+				continue
+			}
+			if o := core.CalleeObj(&c.Call); o != nil && match(o) {
+				out = append(out, c14Site{c, ctx})
+			}
+			g := c14Enterable(c, pkg)
+			if g == nil || ctx.depth() >= depth || seen[g] {
+				continue
+			}
+			seen[g] = true
+			walk(g, &c14Ctx{c, ctx}, seen)
+			delete(seen, g)
+		}
+	}
+	walk(fn, nil, map[*ssa.Function]bool{fn: true})
+	return out
+}
+
+// c14Slice is core.BackSlice continued across the functions of package pkg: a parameter of a helper entered through
+// ctx is continued in the argument of that call, and the result of a call of a helper (up to depth levels down) is
+// continued in what the helper returns — such a call is entered instead of being followed through its arguments.
+// visit sees every value with the context it lives in.
+func c14Slice(v ssa.Value, ctx *c14Ctx, pkg string, depth int, follow func(*ssa.Call) bool, visit func(x ssa.Value, ctx *c14Ctx)) {
+	type key struct {
+		v   ssa.Value
+		ctx *c14Ctx
+	}
+	type ckey struct {
+		c   *ssa.Call
+		ctx *c14Ctx
+	}
+	seen := map[key]bool{}
+	entered := map[ckey]*c14Ctx{}
+	var walk func(v ssa.Value, ctx *c14Ctx)
+	walk = func(v ssa.Value, ctx *c14Ctx) {
+		if v == nil || seen[key{v, ctx}] {
+			return
+		}
+		seen[key{v, ctx}] = true
+		enter := func(c *ssa.Call) *ssa.Function {
+			if ctx.depth() >= depth {
+				return nil
+			}
+			return c14Enterable(c, pkg)
+		}
+		for x := range core.BackSlice(v, func(c *ssa.Call) bool { return enter(c) == nil && follow != nil && follow(c) }) {
+			if x != v {
+				if seen[key{x, ctx}] {
+					continue
+				}
+				seen[key{x, ctx}] = true
+			}
+			visit(x, ctx)
+			switch y := x.(type) {
+			case *ssa.Parameter:
+				if ctx == nil {
+					continue
+				}
+				for i, fp := range y.Parent().Params {
+					if fp == y && y.Parent() == ctx.call.Call.StaticCallee() && i < len(ctx.call.Call.Args) {
+						walk(ctx.call.Call.Args[i], ctx.up)
+					}
+				}
+			case *ssa.Call:
+				g := enter(y)
+				if g == nil {
+					continue
+				}
+				sub := entered[ckey{y, ctx}]
+				if sub == nil {
+					sub = &c14Ctx{y, ctx}
+					entered[ckey{y, ctx}] = sub
+				}
+				for _, ret := range core.Returns(g) {
+					for _, rv := range ret.Results {
+						walk(rv, sub)
+					}
+				}
+			}
+		}
+	}
+	walk(v, ctx)
+}
+
+// c14Canon: recvCanon of v in terms of root, for a value that lives in a helper entered through ctx: a parameter of
+// the helper is the argument it was called with, a field of the helper's receiver is that field of root's receiver when
+// the helper was called on it.
+func c14Canon(v ssa.Value, ctx *c14Ctx, root *ssa.Function) string {
+	v = core.StripConv(v)
+	if ctx == nil {
+		return recvCanon(v, root)
+	}
+	g := ctx.call.Call.StaticCallee()
+	args := ctx.call.Call.Args
+	if prm, ok := v.(*ssa.Parameter); ok && g != nil {
+		for i, fp := range g.Params {
+			if fp == prm && i < len(args) {
+				return c14Canon(args[i], ctx.up, root)
+			}
+		}
+	}
+	s := recvCanon(v, g)
+	if strings.HasPrefix(s, "recv.") {
+		if len(args) > 0 && c14Canon(args[0], ctx.up, root) == "recv" {
+			return s
+		}
+		return "?" + s
+	}
+	return s
+}
+
 // lexStringRule checks a quoted-literal lexer rule for termination ambiguity and for acceptance of every strconv.Quote image.
 func lexStringRule(p *core.Program, r *core.Report, rule, file, name string) {
 	body, err := grammarRule(p.Repo, file, name)
@@ -176,20 +327,25 @@ func checkC14(p *core.Program, r *core.Report) {
 		r.Errorf("Condition.String / visitor.VisitStringLiteral not found")
 		return
 	}
+	// the quoting may sit in a helper of the package that Condition.String calls (quoteCtx: the helper calls entered)
 	var quoteCall *ssa.Call
-	for _, cs := range core.Calls(cstr, false) {
-		if o := core.CalleeObj(cs.Common()); o != nil && core.ObjName(o) == "strconv.Quote" {
-			quoteCall, _ = cs.Instr.(*ssa.Call)
-		}
+	var quoteCtx *c14Ctx
+	for _, st := range c14CallsOnBehalf(cstr, 2, func(o *types.Func) bool { return core.ObjName(o) == "strconv.Quote" }) {
+		quoteCall, quoteCtx = st.call, st.ctx
 	}
 	okQ := false
 	var unquotedGuard *ssa.Call
 	if quoteCall != nil {
 		// argument is c.value; the unquoted alternative is licensed by a regexp match on the same value
-		if recvCanon(quoteCall.Call.Args[0], cstr) == "recv.value" {
+		if c14Canon(quoteCall.Call.Args[0], quoteCtx, cstr) == "recv.value" {
 			okQ = true
 		}
-		for _, ce := range core.ControllingConds(quoteCall.Block()) {
+		// what decides whether the value is quoted: the conditions around the call, and around the helper calls that lead to it
+		conds := core.ControllingConds(quoteCall.Block())
+		for c := quoteCtx; c != nil; c = c.up {
+			conds = append(conds, core.ControllingConds(c.call.Block())...)
+		}
+		for _, ce := range conds {
 			cond := ce.Cond
 			if u, ok := cond.(*ssa.UnOp); ok && u.Op == token.NOT {
 				cond = u.X
@@ -230,11 +386,12 @@ func checkC14(p *core.Program, r *core.Report) {
 				if len(vals) == 3 && vals[1] != nil {
 					r.Check(recvCanon(core.StripConv(vals[1]), cstr) == "recv.operator", "R3", "Condition.String/prints-own-operator", p.Pos(cs.Pos()), "operator := c.operator", "the operator printed is not the condition's operator")
 					valOK := false
-					for v := range core.BackSlice(vals[2], nil) {
-						if v == ssa.Value(quoteCall) {
+					// also when the printed value is the result of a helper that quotes
+					c14Slice(vals[2], nil, core.FuncPkgPath(cstr), 2, nil, func(v ssa.Value, _ *c14Ctx) {
+						if quoteCall != nil && v == ssa.Value(quoteCall) {
 							valOK = true
 						}
-					}
+					})
 					r.Check(valOK, "R1", "Condition.String/prints-quoted-value", p.Pos(cs.Pos()), "the printed value is the quoted value (or the licensed bare number)", "the value printed is not the quoted value")
 				}
 			}
@@ -463,31 +620,54 @@ var c14TextPreprocessing = map[string]string{
 	"utils.ParsePhoneNumber": "whole-text phone number shortcut: the text is replaced, not edited, and only when all of it is a phone number",
 }
 
+// c14LexerInput: one value the lexer's input is made from, with the helper calls entered to reach it.
+type c14LexerInput struct {
+	site c14Site // the NewInputStream call
+	v    ssa.Value
+	ctx  *c14Ctx
+}
+
+// c14LexerInputs: the NewInputStream calls made on behalf of ParseQuery (in it, or in a helper of the package it
+// hands the text to) and, per call, everything its argument is made from — followed back through the helpers'
+// parameters to ParseQuery's own values and into the package's helpers that produce the text.
+func c14LexerInputs(pq *ssa.Function) ([]c14Site, []c14LexerInput) {
+	sites := c14CallsOnBehalf(pq, 2, func(o *types.Func) bool { return o.Name() == "NewInputStream" })
+	var out []c14LexerInput
+	for _, st := range sites {
+		c14Slice(st.call.Call.Args[0], st.ctx, core.FuncPkgPath(pq), 3, func(*ssa.Call) bool { return true }, func(x ssa.Value, ctx *c14Ctx) {
+			out = append(out, c14LexerInput{st, x, ctx})
+		})
+	}
+	return sites, out
+}
+
 func c14R6(p *core.Program, r *core.Report) {
 	pq := p.Func("contactql", "ParseQuery")
 	if pq == nil {
 		r.Errorf("contactql.ParseQuery not found")
 		return
 	}
-	n := 0
-	for _, cs := range core.Calls(pq, false) {
-		o := core.CalleeObj(cs.Common())
-		if o == nil || o.Name() != "NewInputStream" {
-			continue
-		}
-		n++
-		sl := core.BackSlice(cs.Common().Args[0], func(*ssa.Call) bool { return true })
+	sites, inputs := c14LexerInputs(pq)
+	for _, st := range sites {
+		cs := st.call
 		fromParam := false
 		var bad []string
-		for v := range sl {
-			switch x := v.(type) {
+		for _, li := range inputs {
+			if li.site != st {
+				continue
+			}
+			switch x := li.v.(type) {
 			case *ssa.Parameter:
-				if b, ok := x.Type().Underlying().(*types.Basic); ok && b.Kind() == types.String {
+				// a parameter of ParseQuery itself (a helper's parameter is continued in the argument it was called with)
+				if b, ok := x.Type().Underlying().(*types.Basic); ok && b.Kind() == types.String && li.ctx == nil && x.Parent() == pq {
 					fromParam = true
 				}
 			case *ssa.Call:
 				if x.Call.IsInvoke() {
 					continue // environment getters (DefaultCountry): not applied to the text
+				}
+				if li.ctx.depth() < 3 && c14Enterable(x, core.FuncPkgPath(pq)) != nil {
+					continue // a helper of the package: judged by the calls its result is made from
 				}
 				nm := "a dynamic call"
 				if co := core.CalleeObj(&x.Call); co != nil {
@@ -499,6 +679,7 @@ func c14R6(p *core.Program, r *core.Report) {
 			}
 		}
 		sort.Strings(bad)
+		bad = uniq(bad)
 		if !fromParam {
 			r.Unknown("R6", "ParseQuery/lexer-input", p.Pos(cs.Pos()), "the lexer's input does not derive from a string parameter of ParseQuery")
 			continue
@@ -506,7 +687,7 @@ func c14R6(p *core.Program, r *core.Report) {
 		r.Check(len(bad) == 0, "R6", "ParseQuery/lexer-input", p.Pos(cs.Pos()), "text parameter, trimmed (or the phone number rewrite)",
 			"the query text is transformed by "+strings.Join(bad, ", ")+" before it reaches the lexer: the transformation also applies inside quoted literals, so a value that was escaped into one literal no longer parses as that literal")
 	}
-	r.Require("lexer_input_sites", n, 1)
+	r.Require("lexer_input_sites", len(sites), 1)
 }
 
 // ---------------------------------------------------------------------------------------------- R7
